@@ -26,6 +26,7 @@ pub struct Norm {
     pub into_vec: Vec<String>,
     pub iter_on: Vec<String>,
     pub iter_vec: Vec<String>,
+    pub deref_params: Vec<String>,
     pub keyed_mut_iter: Vec<(String, String, String)>,
     lvalue_depth: usize,
     tmp_counter: usize,
@@ -271,6 +272,7 @@ impl Norm {
             into_vec: strs("into_vec"),
             iter_on: strs("iter_on"),
             iter_vec: strs("iter_vec"),
+            deref_params: strs("deref_params"),
             keyed_mut_iter: strs("keyed_mut_iter")
                 .iter()
                 .filter_map(|x| {
@@ -662,6 +664,14 @@ impl VisitMut for Norm {
                 self.lvalue_depth -= 1;
                 self.visit_expr_mut(&mut b.right);
                 self.place_index_diverge(&mut b.left);
+            }
+            Expr::Reference(r) if r.mutability.is_some() && matches!(&*r.expr, Expr::Path(p) if p.path.get_ident().map(|i| self.deref_params.iter().any(|d| i == d)).unwrap_or(false)) => {
+                // N13c: in a slice, a local that was an owned guard (RefMut) is a `&mut` parameter: `&mut X` (deref coercion of
+                // the guard) becomes the explicit reborrow `&mut *X`
+                let sp = r.and_token.span;
+                let inner = r.expr.clone();
+                *r.expr = parse_quote!(*#inner);
+                self.log("N13c-reborrow-guard-param", sp);
             }
             Expr::Reference(r) if r.mutability.is_some() => {
                 self.lvalue_depth += 1;
@@ -1347,7 +1357,7 @@ fn pat_is_some(p: &Pat) -> bool {
 
 fn option_map_to_match(e: &Expr) -> Option<Expr> {
     if let Expr::MethodCall(mc) = e {
-        if mc.method == "map" && mc.args.len() == 1 {
+        if (mc.method == "map" || mc.method == "and_then") && mc.args.len() == 1 {
             if let Expr::Closure(c) = &mc.args[0] {
                 if c.inputs.len() == 1 && !body_has_return(&c.body) {
                     let pat = match c.inputs[0].clone() {
@@ -1357,7 +1367,11 @@ fn option_map_to_match(e: &Expr) -> Option<Expr> {
                     if matches!(pat, Pat::Ident(_)) {
                         let recv = &mc.receiver;
                         let body = &c.body;
-                        let ne: Expr = parse_quote!(match #recv { Some(#pat) => Some(#body), None => None });
+                        let ne: Expr = if mc.method == "map" {
+                            parse_quote!(match #recv { Some(#pat) => Some(#body), None => None })
+                        } else {
+                            parse_quote!(match #recv { Some(#pat) => #body, None => None })
+                        };
                         return Some(ne);
                     }
                 }
